@@ -30,3 +30,10 @@ Lemma obfuscated_instr_reads_back i : valid_instr i = true ->
 Proof.
   intros H. rewrite printed_word_reads_back by (apply word_of_word; exact H). now apply decode_word_encode.
 Qed.
+
+(* registers as printed read back *)
+Definition chk_reg (n : Z) : bool := is_some_eq (register_to_index (print_register n)) n.
+Lemma reg_sweep : forallb chk_reg (zrange 0 16) = true.
+Proof. vm_compute. reflexivity. Qed.
+Lemma printed_register_reads_back n : 0 <= n < 16 -> register_to_index (print_register n) = Some n.
+Proof. intros H. apply is_some_eq_spec. exact (range_forall chk_reg _ _ reg_sweep n H). Qed.
